@@ -123,20 +123,24 @@ func fdaPoolResizeScenario(x *fdaCtx) {
 // ---- netfd-close-race ----
 
 // fdaBarrier releases `n` long-lived goroutines at the same instant, once per round; each calls Close on the round's
-// target.  The goroutines spin (no scheduler, no system call between the release and the call).
+// target.  The goroutines spin (no scheduler, no system call between the release and the call); after the release each
+// waits a few more iterations, a different number every round, so that the offsets between the callers vary round by
+// round instead of being fixed by the order in which the cores see the release.
 type fdaBarrier struct {
 	n      int
 	gen    int32
-	target atomic.Value // io.Closer
+	target atomic.Value // fdaCloserBox
 	done   int32
 	quit   int32
+	sink   uint32
 }
 
 type fdaCloserBox struct{ c io.Closer }
 
-func fdaNewBarrier(n int) *fdaBarrier {
+func fdaNewBarrier(n int, seed int64) *fdaBarrier {
 	b := &fdaBarrier{n: n}
 	for i := 0; i < n; i++ {
+		rs := uint32(seed)*2654435761 + uint32(i+1)*40503
 		go func() {
 			runtime.LockOSThread()
 			defer runtime.UnlockOSThread()
@@ -150,7 +154,16 @@ func fdaNewBarrier(n int) *fdaBarrier {
 					continue
 				}
 				seen = g
-				b.target.Load().(fdaCloserBox).c.Close()
+				c := b.target.Load().(fdaCloserBox).c
+				rs ^= rs << 13
+				rs ^= rs >> 17
+				rs ^= rs << 5
+				acc := uint32(0)
+				for d := rs % 24; d > 0; d-- {
+					acc += d
+				}
+				c.Close()
+				atomic.AddUint32(&b.sink, acc)
 				atomic.AddInt32(&b.done, 1)
 			}
 		}()
@@ -180,6 +193,33 @@ func fdaNetFDCloseRaceScenario(x *fdaCtx) {
 	x.know("conn_viaServer", false)
 	x.know("prepare_closes", false)
 	x.know("ln_viaServer", false)
+	bar := fdaNewBarrier(4, x.seed)
+	defer bar.stop()
+
+	// 1. a bare netFD (what socket() hands to the dialer, what Accept hands to the application) on a descriptor of the
+	// caller: duplicates of one socket, so that a round costs two system calls
+	p0, q0, ok := fdaSocketpair(x)
+	if !ok {
+		return
+	}
+	for i := 0; i < 250; i++ {
+		fd, err := syscall.Dup(p0)
+		if err != nil {
+			x.failf("dup: %v", err)
+			break
+		}
+		fdaOwn(fd)
+		x.kind("fdConn %d 4", fd)
+		fdaMark("G %d", fd)
+		if !bar.closeTogether(&netFD{fd: fd}) {
+			x.failf("closers did not return")
+			break
+		}
+	}
+	fdaClose(p0)
+	fdaClose(q0)
+
+	// 2. the net.Conn (a *netFD) that Listener.Accept hands to the application
 	x.kind("createListener 2")
 	ln, err := CreateListener("tcp", "127.0.0.1:0")
 	if err != nil {
@@ -188,71 +228,53 @@ func fdaNetFDCloseRaceScenario(x *fdaCtx) {
 	}
 	defer ln.Close()
 	port := ln.Addr().(*net.TCPAddr).Port
-	ncl := 3 + x.rnd.Intn(2)
-	bar := fdaNewBarrier(ncl)
-	defer bar.stop()
-	const rounds = 200
-	for i := 0; i < rounds; i++ {
-		switch i % 5 {
-		case 0, 1, 2:
-			// the net.Conn (a *netFD) that Listener.Accept hands to the application
-			cfd, err := syscall.Socket(syscall.AF_INET, syscall.SOCK_STREAM, 0)
-			if err != nil {
-				x.failf("socket: %v", err)
-				return
-			}
-			fdaOwn(cfd)
-			if err := syscall.Connect(cfd, &syscall.SockaddrInet4{Addr: [4]byte{127, 0, 0, 1}, Port: port}); err != nil {
-				x.failf("connect: %v", err)
-				fdaClose(cfd)
-				return
-			}
-			x.kind("acceptConn 3")
-			var conn net.Conn
-			fdaWait(func() bool { conn, err = ln.Accept(); return conn != nil || err != nil }, 8*time.Second)
-			if conn == nil {
-				x.failf("Accept: %v", err)
-				fdaClose(cfd)
-				return
-			}
-			if !bar.closeTogether(conn) {
-				x.failf("closers did not return")
-			}
-			if i%10 == 0 {
-				conn.Close() // once more, later
-			}
-			fdaClose(cfd)
-		case 3:
-			// a bare netFD on an adopted descriptor (what socket() hands to the dialer)
-			a, b, ok := fdaSocketpair(x)
-			if !ok {
-				return
-			}
-			x.kind("fdConn %d 4", a)
-			fdaMark("G %d", a)
-			if !bar.closeTogether(&netFD{fd: a}) {
-				x.failf("closers did not return")
-			}
-			fdaClose(b)
-		case 4:
-			// a connection: Close from several goroutines at once
-			a, b, ok := fdaSocketpair(x)
-			if !ok {
-				return
-			}
-			x.kind("fdConn %d 4", a)
-			fdaMark("G %d", a)
-			c, err := NewFDConnection(a)
-			if err != nil {
-				x.failf("NewFDConnection: %v", err)
-				fdaClose(b)
-				return
-			}
-			if !bar.closeTogether(c) {
-				x.failf("closers did not return")
-			}
-			fdaClose(b)
+	for i := 0; i < 30; i++ {
+		cfd, err := syscall.Socket(syscall.AF_INET, syscall.SOCK_STREAM, 0)
+		if err != nil {
+			x.failf("socket: %v", err)
+			return
 		}
+		fdaOwn(cfd)
+		if err := syscall.Connect(cfd, &syscall.SockaddrInet4{Addr: [4]byte{127, 0, 0, 1}, Port: port}); err != nil {
+			x.failf("connect: %v", err)
+			fdaClose(cfd)
+			return
+		}
+		x.kind("acceptConn 5")
+		var conn net.Conn
+		fdaWait(func() bool { conn, err = ln.Accept(); return conn != nil || err != nil }, 8*time.Second)
+		if conn == nil {
+			x.failf("Accept: %v", err)
+			fdaClose(cfd)
+			return
+		}
+		if !bar.closeTogether(conn) {
+			x.failf("closers did not return")
+		}
+		if i%10 == 0 {
+			conn.Close() // once more, later
+		}
+		fdaClose(cfd)
+	}
+
+	// 3. a connection: Close from several goroutines at once
+	for i := 0; i < 10; i++ {
+		a, b, ok := fdaSocketpair(x)
+		if !ok {
+			return
+		}
+		x.kind("fdConn %d 4", a)
+		fdaMark("G %d", a)
+		c, err := NewFDConnection(a)
+		if err != nil {
+			x.failf("NewFDConnection: %v", err)
+			fdaClose(b)
+			return
+		}
+		if !bar.closeTogether(c) {
+			x.failf("closers did not return")
+		}
+		fdaClose(b)
 	}
 }
 
@@ -419,7 +441,7 @@ func fdaSelfConnectScenario(x *fdaCtx) {
 func fdaMoreScenarios() []fdaScenario {
 	return []fdaScenario{
 		{name: "pool-resize", run: fdaPoolResizeScenario},
-		{name: "netfd-close-race", run: fdaNetFDCloseRaceScenario},
+		{name: "netfd-close-race", run: fdaNetFDCloseRaceScenario, quiet: true},
 		{name: "dial-prebind-fails", run: fdaDialPrebindFailScenario, noExpect: []string{"spuriousENOTAVAIL"}},
 		{name: "dial-selfconnect", run: fdaSelfConnectScenario, netns: true, noExpect: []string{"selfConnect"}},
 	}
